@@ -1,4 +1,5 @@
 -- Root of the `RB` library: models, proofs and driver utilities.
 import RB.Util.Driver
 import RB.Model.Stats
+import RB.Model.Cmdline
 import RB.Proofs.C15
